@@ -14,7 +14,7 @@ with the terminate event set (it then exits at its next poll - refinement condit
 from pbsym import ctx
 from pbsym.ctx import B
 from pbsym.models import mp as mpm
-from harness.C08 import run_world, scenario, _d_ok, _l_ok, LIFE, TIMEOUT_S, BEH, QB, TB, TWIDE
+from harness.C08 import run_world, scenario, _d_ok, _l_ok, LIFE, TIMEOUT_S, BEH, QB, TB, TWIDE13
 
 PROPERTY = 'C13'
 TECHNIQUE = 'CrossHair/z3 symbolic execution of the real Equalizer in the discrete-event multiprocessing model: virtual-time bounds, recycle rate, worker leak and would-hang detection'
@@ -89,7 +89,7 @@ CONDITIONS = [
      'tiers': {'quick': {'bounds': dict(QB, L2=[0, 2, 3], DELAYS=[0, 8, 13], RATES=[1, 2]), 'timeout': 600,
                          'shards': [{'life': list(p)} for p in _LIFE2], 'witness_shard': {'life': ['hang', 'ok']}},
                'thorough': {'bounds': TB, 'timeout': 8000,
-                            'shards': [dict({'life': list(p)}, **TWIDE) for p in _LIFE2] +
+                            'shards': [dict({'life': list(p)}, **TWIDE13) for p in _LIFE2] +
                                       [{'life': list(p), 'b.CONSUME': [0]} for p in (('ok', 'ok'), ('hang', 'ok'), ('ok', 'die'), ('die_idle', 'hang'))],
                             'witness_shard': {'life': ['hang', 'ok']}}}},
 ]
